@@ -10,6 +10,7 @@ import (
 	"strconv"
 	"strings"
 	"sync"
+	"sync/atomic"
 	"testing"
 	"time"
 
@@ -33,6 +34,35 @@ import (
 type vE2EClient struct {
 	mu sync.Mutex
 	st map[string][]byte
+	// onComplete: a completion / clean-up batch removes an item (Delete of an item key without writing a new copy)
+	onComplete func(items int)
+}
+
+// vE2EIncClient is the storage client of one incarnation; after its death every call fails
+type vE2EIncClient struct {
+	*vE2EClient
+	dead atomic.Bool
+}
+
+func (c *vE2EIncClient) Get(ctx context.Context, key string) ([]byte, error) {
+	op := storage.GetOperation(key)
+	err := c.Batch(ctx, op)
+	return op.Value, err
+}
+
+func (c *vE2EIncClient) Set(ctx context.Context, key string, v []byte) error {
+	return c.Batch(ctx, storage.SetOperation(key, v))
+}
+
+func (c *vE2EIncClient) Delete(ctx context.Context, key string) error {
+	return c.Batch(ctx, storage.DeleteOperation(key))
+}
+
+func (c *vE2EIncClient) Batch(ctx context.Context, ops ...*storage.Operation) error {
+	if c.dead.Load() {
+		return errors.New("verif: incarnation is dead")
+	}
+	return c.vE2EClient.Batch(ctx, ops...)
 }
 
 func (c *vE2EClient) Get(ctx context.Context, key string) ([]byte, error) {
@@ -52,6 +82,19 @@ func (c *vE2EClient) Close(context.Context) error { return nil }
 func (c *vE2EClient) Batch(_ context.Context, ops ...*storage.Operation) error {
 	c.mu.Lock()
 	defer c.mu.Unlock()
+	moves := false
+	for _, op := range ops {
+		moves = moves || (op.Type == storage.Set && op.Key == "wi")
+	}
+	for _, op := range ops {
+		if op.Type == storage.Delete && !moves && c.onComplete != nil {
+			if _, err := strconv.ParseUint(op.Key, 10, 64); err == nil {
+				if v, ok := c.st[op.Key]; ok && len(v) == 8 {
+					c.onComplete(int(binary.LittleEndian.Uint64(v)))
+				}
+			}
+		}
+	}
 	for _, op := range ops {
 		switch op.Type {
 		case storage.Get:
@@ -85,7 +128,7 @@ func (c *vE2EClient) storedIDs() []int {
 type vE2EExt struct {
 	component.StartFunc
 	component.ShutdownFunc
-	cl *vE2EClient
+	cl *vE2EIncClient
 }
 
 func (e *vE2EExt) GetClient(context.Context, component.Kind, component.ID, string) (storage.Client, error) {
@@ -122,8 +165,9 @@ func vE2EInts(xs []int) string {
 }
 
 type vE2EIncarnation struct {
-	rs *retrySender
-	qs sender.Sender[request.Request]
+	rs  *retrySender
+	qs  sender.Sender[request.Request]
+	icl *vE2EIncClient
 }
 
 func vE2EStart(t *testing.T, cl *vE2EClient, capacity int64, consumers int, batchMax int, export func(id int) error) *vE2EIncarnation {
@@ -154,11 +198,12 @@ func vE2EStart(t *testing.T, cl *vE2EClient, capacity int64, consumers int, batc
 	if err != nil {
 		t.Fatal(err)
 	}
-	host := &vE2EHost{ext: map[component.ID]component.Component{storageID: &vE2EExt{cl: cl}}}
+	icl := &vE2EIncClient{vE2EClient: cl}
+	host := &vE2EHost{ext: map[component.ID]component.Component{storageID: &vE2EExt{cl: icl}}}
 	if err := qs.Start(context.Background(), host); err != nil {
 		t.Fatal(err)
 	}
-	return &vE2EIncarnation{rs: rs, qs: qs}
+	return &vE2EIncarnation{rs: rs, qs: qs, icl: icl}
 }
 
 // same order as BaseExporter.Shutdown: retry sender first, then the queue
@@ -198,7 +243,24 @@ func TestVerifC01E2E(t *testing.T) {
 		attempted := map[int]int{}
 		delivered := map[int]bool{}
 		rejected := map[int]bool{}
+		kill := c%3 == 1 // the first incarnation dies (abandoned, every later storage call fails) instead of shutting down
+		var dead1 atomic.Bool
+		completions := 0
+		delivered2 := map[int]bool{}
+		// "Done is called with the export's outcome, after it returned": a request may leave storage only after an export
+		// of it has RETURNED success or a permanent error (never while it sits in the retry back-off, never at shutdown)
+		cl.onComplete = func(id int) {
+			mu.Lock()
+			defer mu.Unlock()
+			completions++
+			if !delivered[id] && !rejected[id] && !delivered2[id] {
+				out.Linef("viol sig=C01/e2e/deleted-without-final-handoff id=%d behaviour=%d attempted=%d", id, behaviour[id], attempted[id])
+			}
+		}
 		inc1 := vE2EStart(t, cl, capacity, consumers, 0, func(id int) error {
+			if dead1.Load() {
+				return errors.New("dead")
+			}
 			mu.Lock()
 			defer mu.Unlock()
 			attempted[id]++
@@ -230,7 +292,13 @@ func TestVerifC01E2E(t *testing.T) {
 				time.Sleep(time.Millisecond)
 			}
 		}
-		inc1.shutdown()
+		if kill {
+			dead1.Store(true)
+			inc1.icl.dead.Store(true)
+			out.Linef("op kill")
+		} else {
+			inc1.shutdown()
+		}
 		stored := cl.storedIDs()
 		out.Linef("tr after-shutdown stored=%s", vE2EInts(stored))
 		// clause: a hand-off interrupted by shutdown leaves the request stored
@@ -248,7 +316,6 @@ func TestVerifC01E2E(t *testing.T) {
 		}
 		mu.Unlock()
 		// next incarnation on the same storage: everything is delivered
-		delivered2 := map[int]bool{}
 		inc2 := vE2EStart(t, cl, capacity, consumers, 0, func(id int) error {
 			mu.Lock()
 			defer mu.Unlock()
@@ -259,6 +326,9 @@ func TestVerifC01E2E(t *testing.T) {
 			time.Sleep(time.Millisecond)
 		}
 		inc2.shutdown()
+		if kill {
+			inc1.shutdown() // release the goroutines of the abandoned incarnation (its storage client is dead)
+		}
 		mu.Lock()
 		var got []int
 		for id := range delivered2 {
@@ -281,6 +351,8 @@ func TestVerifC01E2E(t *testing.T) {
 		}
 		out.Linef("stat accepted %d", len(accepted))
 		out.Linef("stat interrupted_by_shutdown %d", interrupted)
+		out.Linef("stat completion_deletes_checked %d", completions)
+		out.Linef("stat first_incarnation_killed %d", vB(kill))
 		out.Linef("end")
 		out.Flush()
 	}
